@@ -26,13 +26,29 @@ Proof.
   apply negb_true_iff in Hv. exact Hv.
 Qed.
 
+Lemma forallb_app_intro {A} (f : A -> bool) (l1 l2 : list A) :
+  forallb f l1 = true -> forallb f l2 = true -> forallb f (l1 ++ l2) = true.
+Proof. intros H1 H2. rewrite forallb_app, H1, H2. reflexivity. Qed.
+
 Lemma corpus_check_all : forallb (pair_verdict known_divergent) all_pairs = true.
 Proof.
-  unfold all_pairs. rewrite !forallb_app.
-  rewrite corpus_check_0, corpus_check_1, corpus_check_2, corpus_check_3, corpus_check_4,
-    corpus_check_5, corpus_check_6, corpus_check_7, corpus_check_8, corpus_check_9, corpus_check_10,
-    corpus_check_11, corpus_check_12, corpus_check_13, corpus_check_14, corpus_check_15.
-  reflexivity.
+  unfold all_pairs.
+  apply forallb_app_intro; [exact corpus_check_0|].
+  apply forallb_app_intro; [exact corpus_check_1|].
+  apply forallb_app_intro; [exact corpus_check_2|].
+  apply forallb_app_intro; [exact corpus_check_3|].
+  apply forallb_app_intro; [exact corpus_check_4|].
+  apply forallb_app_intro; [exact corpus_check_5|].
+  apply forallb_app_intro; [exact corpus_check_6|].
+  apply forallb_app_intro; [exact corpus_check_7|].
+  apply forallb_app_intro; [exact corpus_check_8|].
+  apply forallb_app_intro; [exact corpus_check_9|].
+  apply forallb_app_intro; [exact corpus_check_10|].
+  apply forallb_app_intro; [exact corpus_check_11|].
+  apply forallb_app_intro; [exact corpus_check_12|].
+  apply forallb_app_intro; [exact corpus_check_13|].
+  apply forallb_app_intro; [exact corpus_check_14|].
+  exact corpus_check_15.
 Qed.
 
 (* C05 for the translated corpus, at the bound (corpus_depth, corpus_budget) *)
